@@ -406,3 +406,23 @@ func WidenLists(text string, n int, f func(mutant string)) {
 		}
 	}
 }
+
+// SystematicSwaps yields, for every token position, the text with the run of a tokens starting there (a = 2, 3)
+// exchanged with the run of b tokens that follows it (b = 1, 2, 3): two adjacent clauses in the other order
+// (single-token moves are SystematicMoves).
+func SystematicSwaps(text string, f func(mutant string)) {
+	lx := reflex.Lex(text)
+	if lx.Status != reflex.Accept {
+		return
+	}
+	n := len(lx.Toks)
+	for i := 0; i < n; i++ {
+		for a := 2; a <= 3; a++ {
+			for b := 1; b <= 3 && i+a+b <= n; b++ {
+				A := text[lx.Toks[i].Pos:lx.Toks[i+a-1].End]
+				B := text[lx.Toks[i+a].Pos:lx.Toks[i+a+b-1].End]
+				f(text[:lx.Toks[i].Pos] + B + " " + A + text[lx.Toks[i+a+b-1].End:])
+			}
+		}
+	}
+}
